@@ -8,10 +8,17 @@ mod c15;
 mod exec;
 mod hnsw;
 mod lex;
+mod plan;
+mod conc;
+mod mem;
+mod zm;
 mod lpg;
 mod ops;
+mod opt;
 mod pers;
+mod q;
 mod rdf;
+mod sched;
 mod sess;
 mod tx;
 mod util;
@@ -54,6 +61,12 @@ fn main() {
                 "algo" => algo::generate(seed, cases, &mut out),
                 "pers" => pers::generate(seed, cases, &mut out),
                 "lex" => lex::generate(seed, cases, &mut out),
+                "plan" => plan::generate(seed, cases, &mut out),
+                "conc" => conc::generate(seed, cases, &mut out),
+                "mem" => mem::generate(seed, cases, &mut out),
+                "zm" => zm::generate(seed, cases, &mut out),
+                "q" => q::generate(seed, cases, &mut out),
+                "opt" => opt::generate(seed, cases, &mut out),
                 "hnsw" => hnsw::generate(seed, cases, &mut out),
                 "wal" => wal::generate(seed, cases, args.iter().any(|a| a == "--thorough"), &mut out),
                 _ => {
@@ -67,6 +80,26 @@ fn main() {
                 writeln!(w, "{}", l).unwrap();
             }
         }
+        "try" => {
+            // debugging aid: vh try <gql|cypher> <query text...>
+            let db = if std::env::var("VH_FLAT").is_ok() {
+                grafeo_engine::database::GrafeoDB::with_config(grafeo_engine::config::Config::in_memory().without_factorized_execution()).unwrap()
+            } else {
+                grafeo_engine::database::GrafeoDB::new_in_memory()
+            };
+            let a = db.create_node(&["L0"]);
+            let b = db.create_node(&["L1"]);
+            db.set_node_property(a, "k0", grafeo_common::types::Value::Int64(1));
+            db.set_node_property(b, "k0", grafeo_common::types::Value::Int64(2));
+            db.create_edge(a, b, "T0");
+            let text = args[3..].join(" ");
+            let s = db.session();
+            let r = if args[2] == "gql" { s.execute(&text) } else { s.execute_cypher(&text) };
+            match r {
+                Ok(r) => println!("OK {:?} {:?}", r.columns, r.rows),
+                Err(e) => println!("ERR {}", e.to_string().lines().next().unwrap_or("")),
+            }
+        }
         "run" => {
             let stdin = std::io::stdin();
             let stdout = std::io::stdout();
@@ -76,6 +109,7 @@ fn main() {
             let mut lpgst = lpg::LpgSt::new();
             let mut sessst = sess::SessSt::new();
             let mut persst = pers::PersSt::new();
+            let mut zmst = zm::ZmSt::new();
             for line in stdin.lock().lines() {
                 let line = line.unwrap();
                 if line.starts_with('#') {
@@ -86,6 +120,7 @@ fn main() {
                         lpgst = lpg::LpgSt::new();
                         sessst = sess::SessSt::new();
                         persst = pers::PersSt::new();
+                        zmst = zm::ZmSt::new();
                     }
                     continue;
                 }
@@ -102,7 +137,13 @@ fn main() {
                     Some("sess") => sess::run(&mut sessst, &toks[1..]),
                     Some("algo") => algo::run(&toks[1..]),
                     Some("lex") => lex::run(&toks[1..]),
+                    Some("plan") => plan::run(&toks[1..]),
+                    Some("conc") => conc::run(&toks[1..]),
+                    Some("mem") => mem::run(&toks[1..]),
+                    Some("q") => q::run(&toks[1..]),
+                    Some("opt") => opt::run(&toks[1..]),
                     Some("pers") => pers::run(&mut persst, &toks[1..]),
+                    Some("zm") => zm::run(&mut zmst, &toks[1..]),
                     Some("hnsw") => hnsw::run(&toks[1..]),
                     _ => "bad-op".to_string(),
                 };
